@@ -206,6 +206,9 @@ def main(argv=None):
             if prop == pid:
                 tasks.append((path, key, a.repo))
     results = []
+    os.environ["PYVC_TIER"] = tier
+    if tier == "thorough":
+        os.environ.setdefault("PYVC_XCHECK_MAX", "400")     # ten times as many path models go through the CPython cross-check of the encoder
     os.environ.setdefault("PYVC_XCHECK", "1")      # export path models for the CPython cross-check of the encoder (self-validation)
     if tasks:
         with mp.Pool(min(16, len(tasks))) as pool:
@@ -230,6 +233,8 @@ def main(argv=None):
         if fr.get("crash") or fr.get("error"):
             errors.append(f"{fr.get('target')}: {fr.get('error')}")
             continue
+        for d_ in fr.get("solver_disagreements") or []:
+            errors.append(f"solver disagreement (z3: unsat, cvc5: sat) on {d_}")
         if fr.get("unsupported"):
             undecided.append(f"{fr['target']}: unsupported construct: {fr['unsupported'][0]}")
         if fr.get("truncated"):
